@@ -260,6 +260,10 @@ func (c *Ctx) lexStates() (map[*ssa.Function]*lexState, *ssa.Function, *ssa.Func
 		if f == nil || f.Signature.Recv() != nil || f.Signature.Params().Len() != 1 || f.Signature.Results().Len() != 1 {
 			return false
 		}
+		// a state takes the lexer and nothing else; a helper that classifies a rune and answers with a state (or nil for "none") is not one
+		if pt, isPtr := f.Signature.Params().At(0).Type().(*types.Pointer); !isPtr || namedOf(pt.Elem()) == nil || namedOf(pt.Elem()).Obj().Name() != "Lexer" {
+			return false
+		}
 		return types.Identical(f.Signature.Results().At(0).Type(), lexFnT.Type()) && fnPkgPath(f) == modPath+"/lexer"
 	}
 	for _, f := range c.ModFuncs {
@@ -1536,11 +1540,158 @@ func ruleKW1(c *Ctx) *rule {
 
 func ruleWR1(c *Ctx) *rule {
 	r := &rule{ID: "WR1", Engine: "E2+E3", Floor: 6,
-		Statement: "the String method of every compound node type (Task, Function, Assign) reads every field of the node into the text it returns; every list field is consumed by a loop that indexes it with its own induction variable from front to back, and on every way round that loop the element at hand is handed to a call (its String/Write, an append of it): no element is filtered out, and the list is not sorted or re-sliced",
+		Statement: "the printer of every compound node type (the String or the Write method of Task, Function, Assign - whichever does the work) reads every field of the node into the text; every list field is consumed by a loop that indexes it with its own induction variable from front to back, and on every way round that loop the element at hand is handed to an append or a write: no element is filtered out, and the list is not sorted or re-sliced",
 		Necessity: "a dependency, output, command or argument that the printer leaves out (a de-duplication, a skip of empty entries, a cap) is gone from the file --fmt writes back: the formatted spokfile defines a different task"}
+	isEmitCall := func(cn string) bool {
+		return cn == "builtin.append" || strings.HasSuffix(cn, ").WriteString") || strings.HasSuffix(cn, ").Write") || strings.HasPrefix(cn, "fmt.Fprint") || strings.HasSuffix(cn, ").WriteByte") || strings.HasSuffix(cn, ").WriteRune")
+	}
+	// judge one method for one field: "unread", "ok", "filtered", "read" (read, flow not followed), "noloop"
+	judge := func(f *ssa.Function, fk string, isList bool, noun string) (string, string) {
+		fi := c.info(f)
+		rs := c.newSlicer()
+		rs.depth = 1
+		var roots []ssa.Value
+		for _, ret := range returnsOf(f) {
+			roots = append(roots, ret.Results...)
+		}
+		for _, site := range callSites(f) {
+			if isEmitCall(calleeName(site.Common())) {
+				if site.Common().IsInvoke() {
+					roots = append(roots, site.Common().Value)
+				}
+				roots = append(roots, site.Common().Args...)
+			}
+		}
+		rres := rs.run(roots...)
+		var vals []ssa.Value
+		for _, b := range f.Blocks {
+			for _, in := range b.Instrs {
+				if v, isV := in.(ssa.Value); isV {
+					if _, isAddr := v.(*ssa.FieldAddr); isAddr {
+						continue
+					}
+					if fieldKey(v) == fk || isFieldLoad(v, fk) {
+						vals = append(vals, v)
+					}
+				}
+			}
+		}
+		if len(vals) == 0 {
+			return "unread", ""
+		}
+		if !rres.hasField(fk) {
+			return "read", ""
+		}
+		if !isList {
+			return "ok", ""
+		}
+		isVal := map[ssa.Value]bool{}
+		for _, v := range vals {
+			isVal[v] = true
+		}
+		verdict, detail := "noloop", ""
+		for _, l := range fi.loops {
+			var elems []ssa.Value
+			for _, b := range f.Blocks {
+				if !l.body[b] {
+					continue
+				}
+				for _, in := range b.Instrs {
+					var x, idx ssa.Value
+					switch ia := in.(type) {
+					case *ssa.IndexAddr:
+						x, idx = ia.X, ia.Index
+					case *ssa.Index:
+						x, idx = ia.X, ia.Index
+					}
+					if x == nil || !isVal[x] {
+						continue
+					}
+					if p, isPhi := idx.(*ssa.Phi); isPhi && p.Block() == l.header && l.isInduction(p) {
+						elems = append(elems, in.(ssa.Value))
+					} else if bo, isBin := idx.(*ssa.BinOp); isBin {
+						if p, isPhi := bo.X.(*ssa.Phi); isPhi && p.Block() == l.header && l.isInduction(p) {
+							elems = append(elems, in.(ssa.Value))
+						}
+					}
+				}
+			}
+			if len(elems) == 0 {
+				continue
+			}
+			var uses []*ssa.BasicBlock
+			for _, b := range f.Blocks {
+				if !l.body[b] || fi.innermostLoop(b) != l {
+					continue
+				}
+				for _, in := range b.Instrs {
+					site, isCall := in.(ssa.CallInstruction)
+					if !isCall || !isEmitCall(calleeName(site.Common())) {
+						continue
+					}
+					us := c.newSlicer()
+					us.depth = 0
+					var ops []ssa.Value
+					if site.Common().IsInvoke() {
+						ops = append(ops, site.Common().Value)
+					}
+					ops = append(ops, site.Common().Args...)
+					ures := us.run(ops...)
+					for _, e := range elems {
+						if ures.has(e) {
+							uses = append(uses, b)
+						}
+					}
+				}
+			}
+			every := false
+			for _, ub := range uses {
+				avoidable := false
+				seenB := map[*ssa.BasicBlock]bool{}
+				var walk func(x *ssa.BasicBlock)
+				walk = func(x *ssa.BasicBlock) {
+					if x == ub || seenB[x] || !l.body[x] {
+						return
+					}
+					seenB[x] = true
+					for _, sx := range x.Succs {
+						if sx == l.header || !l.body[sx] {
+							avoidable = true
+							continue
+						}
+						walk(sx)
+					}
+				}
+				for _, sx := range l.header.Succs {
+					if l.body[sx] {
+						walk(sx)
+					}
+				}
+				if !avoidable {
+					every = true
+				}
+			}
+			if every {
+				verdict = "ok"
+			} else if verdict != "ok" {
+				verdict, detail = "filtered", "the loop at "+c.bpos(l.header)+" can go round without handing the element at hand to anything: entries are left out under a condition"
+			}
+		}
+		for _, v := range vals {
+			if why := c.sliceMutation(v, 1, map[ssa.Value]bool{}, "the "+noun+" of the node"); why != "" {
+				verdict, detail = "filtered", why
+			}
+		}
+		return verdict, detail
+	}
 	for _, tn := range []string{"Task", "Function", "Assign"} {
-		f := c.methodOpt("ast", tn, "String")
-		if f == nil {
+		var methods []*ssa.Function
+		for _, mn := range []string{"String", "Write"} {
+			if m := c.methodOpt("ast", tn, mn); m != nil && len(m.Blocks) > 0 {
+				methods = append(methods, m)
+			}
+		}
+		if len(methods) == 0 {
 			r.bad("ast."+tn+".String", "?", "no String method")
 			continue
 		}
@@ -1552,167 +1703,37 @@ func ruleWR1(c *Ctx) *rule {
 		if !ok {
 			lost("ast.%s is not a struct", tn)
 		}
-		fi := c.info(f)
-		// what the returned text is computed from
-		rs := c.newSlicer()
-		rs.depth = 1
-		var rets []ssa.Value
-		for _, ret := range returnsOf(f) {
-			rets = append(rets, ret.Results[0])
-		}
-		// text written into a builder that is then returned counts as returned text
-		for _, site := range callSites(f) {
-			n := calleeName(site.Common())
-			if strings.HasSuffix(n, ").WriteString") || strings.HasSuffix(n, ").WriteByte") || strings.HasSuffix(n, ").WriteRune") || strings.HasSuffix(n, ").Write") || strings.HasPrefix(n, "fmt.Fprint") {
-				rets = append(rets, site.Common().Args...)
-			}
-		}
-		rres := rs.run(rets...)
 		for i := 0; i < st.NumFields(); i++ {
 			fld := st.Field(i)
 			if fld.Embedded() {
 				continue
 			}
 			fk := "ast." + tn + "." + fld.Name()
-			key := "ast." + tn + ".String prints " + fld.Name()
-			// the values that are this field of the receiver
-			var vals []ssa.Value
-			for _, b := range f.Blocks {
-				for _, in := range b.Instrs {
-					if v, isV := in.(ssa.Value); isV {
-						if _, isAddr := v.(*ssa.FieldAddr); isAddr {
-							continue
-						}
-						if fieldKey(v) == fk || isFieldLoad(v, fk) {
-							vals = append(vals, v)
-						}
-					}
+			key := "ast." + tn + " printer writes " + fld.Name()
+			_, isList := fld.Type().Underlying().(*types.Slice)
+			best, detail, pos := "unread", "", c.pos(methods[0].Pos())
+			rank := map[string]int{"unread": 0, "read": 1, "noloop": 2, "filtered": 3, "ok": 4}
+			for _, m := range methods {
+				v, d := judge(m, fk, isList, fld.Name())
+				if rank[v] > rank[best] {
+					best, detail, pos = v, d, c.pos(m.Pos())
 				}
 			}
-			if len(vals) == 0 {
-				r.bad(key, c.pos(f.Pos()), "the printer never reads the field: it cannot be in the returned text")
-				continue
-			}
-			if !rres.hasField(fk) {
-				r.undecided(key, c.pos(f.Pos()), "the field is read, but how it gets into the returned text is not followed (an iterator, a callback)")
-				continue
-			}
-			if _, isSlice := fld.Type().Underlying().(*types.Slice); !isSlice {
-				r.ok(key, c.pos(f.Pos()), "read into the returned text")
-				continue
-			}
-			isVal := map[ssa.Value]bool{}
-			for _, v := range vals {
-				isVal[v] = true
-			}
-			// loops that index the field with their induction variable
-			verdict, detail := "none", ""
-			for _, l := range fi.loops {
-				var elems []ssa.Value
-				for _, b := range f.Blocks {
-					if !l.body[b] {
-						continue
-					}
-					for _, in := range b.Instrs {
-						var x, idx ssa.Value
-						switch ia := in.(type) {
-						case *ssa.IndexAddr:
-							x, idx = ia.X, ia.Index
-						case *ssa.Index:
-							x, idx = ia.X, ia.Index
-						}
-						if x == nil || !isVal[x] {
-							continue
-						}
-						if p, isPhi := idx.(*ssa.Phi); isPhi && p.Block() == l.header && l.isInduction(p) {
-							elems = append(elems, in.(ssa.Value))
-						} else if bo, isBin := idx.(*ssa.BinOp); isBin {
-							if p, isPhi := bo.X.(*ssa.Phi); isPhi && p.Block() == l.header && l.isInduction(p) {
-								elems = append(elems, in.(ssa.Value))
-							}
-						}
-					}
-				}
-				if len(elems) == 0 {
-					continue
-				}
-				// a call that takes the element, on every way round
-				var uses []*ssa.BasicBlock
-				for _, b := range f.Blocks {
-					if !l.body[b] || fi.innermostLoop(b) != l {
-						continue
-					}
-					for _, in := range b.Instrs {
-						site, isCall := in.(ssa.CallInstruction)
-						if !isCall {
-							continue
-						}
-						// only what puts the element into the text (or into the list the text is joined from) counts
-						cn := calleeName(site.Common())
-						if !(cn == "builtin.append" || strings.HasSuffix(cn, ").WriteString") || strings.HasSuffix(cn, ").Write") || strings.HasPrefix(cn, "fmt.Fprint") || strings.HasSuffix(cn, ").WriteByte") || strings.HasSuffix(cn, ").WriteRune")) {
-							continue
-						}
-						us := c.newSlicer()
-						us.depth = 0
-						var ops []ssa.Value
-						if site.Common().IsInvoke() {
-							ops = append(ops, site.Common().Value)
-						}
-						ops = append(ops, site.Common().Args...)
-						ures := us.run(ops...)
-						for _, e := range elems {
-							if ures.has(e) {
-								uses = append(uses, b)
-							}
-						}
-					}
-				}
-				every := false
-				for _, ub := range uses {
-					avoidable := false
-					seenB := map[*ssa.BasicBlock]bool{}
-					var walk func(x *ssa.BasicBlock)
-					walk = func(x *ssa.BasicBlock) {
-						if x == ub || seenB[x] || !l.body[x] {
-							return
-						}
-						seenB[x] = true
-						for _, sx := range x.Succs {
-							if sx == l.header || !l.body[sx] {
-								avoidable = true
-								continue
-							}
-							walk(sx)
-						}
-					}
-					for _, sx := range l.header.Succs {
-						if l.body[sx] {
-							walk(sx)
-						}
-					}
-					if !avoidable {
-						every = true
-					}
-				}
-				if every {
-					verdict = "ok"
-				} else if verdict != "ok" {
-					verdict, detail = "filtered", "the loop at "+c.bpos(l.header)+" can go round without handing the element at hand to anything: entries are left out under a condition"
-				}
-			}
-			// nothing re-orders the list or a copy of it
-			for _, v := range vals {
-				if why := c.sliceMutation(v, 1, map[ssa.Value]bool{}, "the "+fld.Name()+" of the node"); why != "" {
-					verdict, detail = "filtered", why
-				}
-			}
-			switch verdict {
+			switch best {
 			case "ok":
-				r.ok(key, c.pos(f.Pos()), "every element is consumed on every way round a front-to-back loop over the field")
+				if isList {
+					r.ok(key, pos, "every element is consumed on every way round a front-to-back loop over the field")
+				} else {
+					r.ok(key, pos, "read into the text")
+				}
 			case "filtered":
-				r.bad(key, c.pos(f.Pos()), detail)
+				r.bad(key, pos, detail)
+			case "unread":
+				r.bad(key, pos, "neither String nor Write of the node reads the field: it cannot be in the text")
+			case "read":
+				r.undecided(key, pos, "the field is read, but how it gets into the text is not followed (an iterator, a callback)")
 			default:
-				r.undecided(key, c.pos(f.Pos()), "the list is not consumed by a loop that indexes it with its own induction variable (a library call, an iterator): not followed")
+				r.undecided(key, pos, "the list is not consumed by a loop that indexes it with its own induction variable (a library call, an iterator): not followed")
 			}
 		}
 	}
